@@ -78,7 +78,8 @@ impl GraphEngine {
         let wal_path = wal_path.as_ref().to_path_buf();
 
         let mut pager = Pager::open(&ndb_path)?;
-        let wal = Wal::open(&wal_path)?;
+        let mut wal = Wal::open(&wal_path)?;
+        wal.truncate_invalid_tail()?;
 
         let mut idmap = IdMap::load(&mut pager)?;
         let mut index_catalog = IndexCatalog::open_or_create(&mut pager)?;
